@@ -603,7 +603,7 @@ def toplevel_rule(rep, mod, T, D, join_at=6):
              None if ok else ('on some path __printf returns %r after %r callback calls' % (bad[0][1], bad[0][0].E)
                               if bad else 'no path reaches the return'))
     for o in sx.obligs.values():
-        if o['kind'] == 'count-nonneg':
+        if o['kind'] in ('count-nonneg', 'emit-complete'):
             rep.inst('R-EMITCOUNT', o['fn'], o['key'], o['ok'], o['where'], o['detail'])
 
 
@@ -724,6 +724,8 @@ def int_layout(mod, T, D, facts, convs):
                 return (key, False, err, None)
             want = clean_model(ctx, segs)
             ok = same_segments(ctx, got, want)
+            if not ok:
+                unsummarised_counts(sx, got, ctxt['callee'])
             m = None
             if ran:
                 neg = conv in 'di' and ctx.st.cons.entails_lt(u, 0)
@@ -760,7 +762,7 @@ def int_layout(mod, T, D, facts, convs):
             rep.inst('R-IMAG', ctxt['callee'], '%%%s: %s' % (c, k2), ok, where_fn(f), detail)
     digitchr_rule(rep, 'R-DIGITCHR', lay, T, convs)
     pcacc_rule(rep, 'R-PCACC', lay, '/'.join(convs))
-    import_obligs(rep, sx, {'count-nonneg': 'R-EMITCOUNT', 'digit-store': 'R-IBUF', 'emit-read': 'R-IBUF',
+    import_obligs(rep, sx, {'count-nonneg': 'R-EMITCOUNT', 'emit-complete': 'R-EMITCOUNT', 'digit-store': 'R-IBUF', 'emit-read': 'R-IBUF',
                             'local-store': 'R-IBUF'})
     return rep.items
 
@@ -861,6 +863,8 @@ def str_layout(mod, T, D, facts, conv):
             want = clean_model(ctx, segs)
             got = norm_segments(sx, ctx, s.segs, strarg=base)
             ok = same_segments(ctx, got, want)
+            if not ok:
+                unsummarised_counts(sx, got, ctxt['callee'])
             note = ''
             if conv == 'c' and not ok and not ctx.st.cons.entails_le(1, n):
                 note = ' (the character is NUL: its string length is 0, but %c must hand it to the callback like any other)'
@@ -898,8 +902,21 @@ def str_layout(mod, T, D, facts, conv):
         ok, detail = bound[k]
         rep.inst('R-SBOUND', ctxt['callee'], '%%s: %s' % k, ok, where_fn(f), detail)
     pcacc_rule(rep, 'R-PCACC', lay, conv)
-    import_obligs(rep, sx, {'count-nonneg': 'R-EMITCOUNT', 'emit-read': 'R-IBUF', 'local-store': 'R-IBUF'})
+    import_obligs(rep, sx, {'count-nonneg': 'R-EMITCOUNT', 'emit-complete': 'R-EMITCOUNT', 'emit-read': 'R-IBUF', 'local-store': 'R-IBUF'})
     return rep.items
+
+
+def unsummarised_counts(sx, segs, fname):
+    """a layout that disagrees with the model because one of its lengths is the exit value of a loop the executor only
+    over-approximates (a hand-written scan instead of strlen / strnlen, say) is not a verdict: what that loop computes is unknown"""
+    for sg in segs:
+        for x in sg:
+            if isinstance(x, Lin):
+                for sy in x.t:
+                    d = sx.describe_opq(sy) if isinstance(sy, str) else None
+                    if d is not None and d[0] in ('h', 'hE', 'hp', 'j', 'jE'):
+                        raise AnalysisBroken('%s: an emitted length is the value a loop of %s leaves in %r, which the layout '
+                                             'extraction does not summarise (hand-written scan?)' % (fname, d[1], d[2:]))
 
 
 def import_obligs(rep, sx, mapping, fname_filter=None):
